@@ -86,6 +86,8 @@ type Gen struct {
 	usedSpecs       map[string]bool
 	pureSeen        map[string]bool
 	fpUndefSigned   map[string]bool
+	siteSeq         map[string]int
+	siteHits        map[string]int
 	Label           string
 	noSlice         bool
 	retGroups       []*retGroup
@@ -107,7 +109,7 @@ func NewGen(p *Program, fn *ssa.Function, fc *FuncContract) *Gen {
 		tags: map[string]int{}, strlits: map[string]string{}, noteSeen: map[string]bool{}, ufs: map[string]bool{}, axiomsIn: map[string]bool{},
 		specDefs: map[string]*specDef{}, specBusy: map[string]bool{}, Assumptions: map[string]bool{},
 		inlined: map[string]bool{}, calleeContracts: map[string]bool{}, obNames: map[string]bool{}, safetyCount: map[string]int{},
-		boxedTags: map[int]bool{}, usedSpecs: map[string]bool{}, pureSeen: map[string]bool{}, fpUndefSigned: map[string]bool{}}
+		boxedTags: map[int]bool{}, usedSpecs: map[string]bool{}, pureSeen: map[string]bool{}, fpUndefSigned: map[string]bool{}, siteSeq: map[string]int{}, siteHits: map[string]int{}}
 	g.keySort["$alloc"] = "Int"
 	if fc != nil {
 		g.BV = fc.Arith == "bv"
@@ -512,9 +514,9 @@ func (g *Gen) typeInv(v Val, alloc string) string {
 		z := g.idxLit(0)
 		c = append(c, g.icmp("<=", z, app("s_off", v.S), true), g.icmp("<=", z, app("s_len", v.S), true), g.icmp("<=", app("s_len", v.S), app("s_cap", v.S), true))
 		if !g.BV {
-			c = append(c, app("<=", app("+", app("s_off", v.S), app("s_cap", v.S)), "4611686018427387904"))
+			c = append(c, app("<=", app("+", app("s_off", v.S), app("s_cap", v.S)), "281474976710656"))
 		} else {
-			c = append(c, app("bvsle", app("s_off", v.S), "(_ bv4611686018427387904 64)"), app("bvsle", app("s_cap", v.S), "(_ bv4611686018427387904 64)"))
+			c = append(c, app("bvsle", app("s_off", v.S), "(_ bv281474976710656 64)"), app("bvsle", app("s_cap", v.S), "(_ bv281474976710656 64)"))
 		}
 		if alloc != "" {
 			c = append(c, app("<=", app("obj", app("s_arr", v.S)), alloc))
